@@ -18,8 +18,8 @@ CHECKS = [
   "text": "Decides the whole statement for all integer requests at once: tables strictly ascending and mutually inverse, resolver bisects list(keys()) of the dispatched table behind a range guard and returns the matching pair, every pair has its data file, the sequence converter is element-wise consistent (positions selected on the request sequence, never on the array being rewritten), a request of exactly zero is not rejected by any validation guard of the resolver (three-valued guard evaluation), constructors store resolved values. An unrecognised lookup idiom yields exit 2 (undecided), never a pass.",
   "note": _NOTE + " Contract of bisect.bisect_left and dict insertion order."},
  {"id": "C17", "engine": "gridlint", "design_ref": "DESIGN.md 4/C17",
-  "technique": "static table<->loader agreement (keys subscripted by the loader vs shipped JSON entries)",
-  "text": "Decides only the clause 'every shipped per-element parameter set loads as matching arrays of positive exponents' (keys, equal lengths, positive finite exponents, reachable symbols, fresh conversion). The analytic exactness of the s/p potential formulas is NOT decided (algebraic identity, outside static analysis).",
+  "technique": "static table<->loader agreement (keys subscripted by the loader vs shipped JSON entries) + static formula analysis (algebraic normal forms with an erf generator) of the two Gaussian-potential routines",
+  "text": "Decides (a) 'every shipped per-element parameter set loads as matching arrays of positive exponents' (keys, equal lengths, positive finite exponents, reachable symbols, fresh conversion) and (b), for all alpha and r at once on the source formulas, that the s- and p-type routines (normalised and unnormalised) return the potential of the density they document: radial Poisson identity (r V)'' = -4 pi r rho, the value returned below the small-r threshold equals the r -> 0 limit of the formula, r V tends to the total charge.  Two known findings: the p-type formula (both variants) is not the potential of its documented density; a test pins it.  Does NOT decide how far an r-dependent small-r expansion may be used, nor the numerical superposition.",
   "note": _NOTE},
  {"id": "C19", "engine": "gridlint", "design_ref": "DESIGN.md 4/C19",
   "technique": "static ownership/escape analysis of module-level state (abstract interpretation, whole-package fixpoint) + typestate rules on the set-once scale",
